@@ -536,7 +536,7 @@ class Evaluator:
                 src = strip(src[3][0])
             inner = self.find_forloop_inner(e['arms'][0]['body'])
             if inner is not None:
-                somearm = [a for a in inner['arms'] if pat_desc(a['pat']) == 'Some']
+                somearm = [a for a in inner['arms'] if pat_desc(a['pat']) == 'Some' or (a['pat'].get('k') == 'variant' and a['pat'].get('name') == 'Some')]
                 if somearm:
                     somearm = somearm[0]
                     if isinstance(src, tuple) and src[0] == 'array' and 0 < len(src[1]) <= 8:
@@ -551,6 +551,9 @@ class Evaluator:
                     for i, sp in somearm['pat']['subs']:
                         self.bind_pat(sp, ('elem', src), ctx)
                     v, tb = self.ev(somearm['body'], ctx)
+                    cp = _zip_copy(src, tb)
+                    if cp is not None:
+                        return (('unit',), cat(ts, ['MUTCALL', 'copy_from_slice', 'core::slice::<impl [T]>::copy_from_slice', cp, e.get('loc'), ()]))
                     return (('unit',), cat(ts, ['star', src, tb]))
             return (('unit',), cat(ts, self.opaque('unrecognised for-loop desugaring', e, ctx)))
         if e['src'] == 'TryDesugar':
@@ -884,6 +887,17 @@ class Evaluator:
             return (('conv', strip(argv[0]), e['ga'][0] if tr == 'Into' else e['ga'][1], e['ga'][1] if tr == 'Into' else e['ga'][0]), pre)
         if tr == 'Iterator' and name == 'map':
             return (('mapiter', strip(argv[0]), argv[1]), pre)
+        if tr == 'Iterator' and name == 'take' and len(argv) == 2:
+            # `repeat_with(f).take(n)` is `(0..n).map(|_| f())`
+            src = strip(argv[0])
+            if isinstance(src, tuple) and src and src[0] == 'call' and src[1] == 'repeat_with' and src[3]:
+                n = strip(argv[1])
+                ty = 'usize'
+                if isinstance(n, tuple) and n and n[0] == 'cast' and n[1] in ('usize', 'u64') and len(n) > 3 and n[3] in ('u8', 'u16', 'u32'):
+                    ty = n[3]
+                    n = strip(n[2])         # a widening cast of the count does not change it
+                rng = ('adt', 'core::ops::range::Range', 'Range', [(0, ('lit', 0, ty, ())), (1, n)], 'core::ops::range::Range<%s>' % ty)
+                return (('mapiter', rng, src[3][0]), pre)
         if (tr == 'FromIterator' and name == 'from_iter') or (tr == 'Iterator' and name == 'collect' and len(e['ga']) > 1):
             # `B::from_iter(it)` and `it.collect::<B>()` are the same call
             target = e['ga'][0] if name == 'from_iter' else e['ga'][1]
@@ -1091,6 +1105,37 @@ def _ifval_minmax(c, v1, v2):
     else:
         return None
     return _minmax_call(kind, a, b)
+
+
+def _zip_copy(src, body):
+    """`for (d, s) in A.iter_mut().zip(B) { *d = *s; }` copies B into A element by element: the same effect as
+    `A.copy_from_slice(B)` (the lengths are whatever the two views say; rules compare those).  Returns [A, B] or None"""
+    src = strip(src)
+    if not (isinstance(src, tuple) and src and src[0] == 'call' and src[1] == 'zip' and len(src[3]) == 2):
+        return None
+    a, b = strip(src[3][0]), strip(src[3][1])
+
+    def unit(x, names):
+        for _ in range(4):
+            if isinstance(x, tuple) and x and x[0] == 'call' and x[1] in names and x[3]:
+                x = strip(x[3][0])
+            else:
+                break
+        return x
+    a0 = unit(a, ('iter_mut', 'into_iter'))
+    b0 = unit(b, ('iter', 'into_iter', 'copied', 'cloned'))
+    if a0 is a:
+        return None
+    its = items(body)
+    if len(its) != 1 or its[0][0] != 'SET' or its[0][3] not in (None, '='):
+        return None
+    tgt, val = strip(its[0][1]), strip(its[0][2])
+
+    def comp(x, i):
+        return isinstance(x, tuple) and x and x[0] == 'field' and x[2] == i and isinstance(strip(x[1]), tuple) and strip(x[1])[0] == 'elem'
+    if comp(tgt, 0) and comp(val, 1):
+        return [a0, b0]
+    return None
 
 
 def _while_form(body):
